@@ -106,11 +106,14 @@ void hazard_eras<Traits>::guard_ptr<T, MarkedPtr>::acquire(const concurrent_ptr<
         prev_era = era;
         continue;
       }
+      // Other guards share our HE instance, so we need a new one. We have to allocate it before we
+      // give up our share: if the allocation throws, this guard must still protect what it refers to.
+      auto* new_he = local_thread_data().alloc_hazard_era(era);
       he->release_guard();
-      he = nullptr;
+      he = new_he;
+    } else {
+      he = local_thread_data().alloc_hazard_era(era);
     }
-    assert(he == nullptr);
-    he = local_thread_data().alloc_hazard_era(era);
     prev_era = era;
   }
 }
@@ -150,12 +153,13 @@ bool hazard_eras<Traits>::guard_ptr<T, MarkedPtr>::acquire_if_equal(const concur
     if (he != nullptr && he->guards() == 1) {
       he->set_era(era);
     } else {
+      // allocate before giving up our share of the old HE instance: if the allocation throws, this
+      // guard must still protect what it refers to.
+      auto* new_he = local_thread_data().alloc_hazard_era(era);
       if (he != nullptr) {
         he->release_guard();
-        he = nullptr;
       }
-
-      he = local_thread_data().alloc_hazard_era(era);
+      he = new_he;
     }
     prev_era = era;
   }
